@@ -252,7 +252,9 @@ public:
                 if (auto *c = w.server->current()) {
                     ownFull = c->fullJid;
                 }
-                if (w.client->streamManagementState() != QXmppClient::ResumedStream) {
+                // resumed or not is the server's word (what it answered on this connection), not the library's opinion
+                const bool resumedTruth = w.server->current() ? w.server->current()->resumedHere : w.client->streamManagementState() == QXmppClient::ResumedStream;
+                if (!resumedTruth) {
                     // nothing of an earlier session's view survives into a session that is not a resumption of it
                     mReceived = false;
                     mItems.clear();
